@@ -80,6 +80,8 @@ fn write_to_buf_escaped<W: Write>(writer: &mut W, text: &str, attr_mode: bool) -
             '"' if attr_mode => writer.write_all(b"&quot;"),
             '<' if !attr_mode => writer.write_all(b"&lt;"),
             '>' if !attr_mode => writer.write_all(b"&gt;"),
+            // A literal CR would be normalized to LF when the output is parsed again.
+            '\r' => writer.write_all(b"&#13;"),
             c => writer.write_fmt(format_args!("{c}")),
         }?;
     }
